@@ -25,6 +25,8 @@ type c15Repl struct {
 	nid  string       // value of data.PointTypeNodeID
 
 	ptsLoop, chLoop *ast.RangeStmt
+	st              *kit.Std
+	helpers         map[*kit.Func]bool
 
 	mapMsgs, idMsgs, ptMsgs, treeMsgs c15Msgs
 	s1Seen, s2Seen, recSeen           bool
@@ -68,7 +70,25 @@ func (r *c15Repl) ptElem(e ast.Expr) (inSlice, copy bool) {
 	if r.ptsLoop == nil {
 		return false, false
 	}
+	if r.st != nil {
+		e = r.st.Resolve(e)
+	}
 	e = ast.Unparen(e)
+	// p := &N.Points[i] (single definition): the element itself, through a pointer
+	if id, ok := e.(*ast.Ident); ok {
+		if d := ast.Unparen(c16Resolve(r.f, id)); d != ast.Expr(id) {
+			if u, ok := d.(*ast.UnaryExpr); ok && u.Op == token.AND {
+				e = ast.Unparen(u.X)
+			}
+		}
+	}
+	if st, ok := e.(*ast.StarExpr); ok {
+		if d := ast.Unparen(c16Resolve(r.f, st.X)); true {
+			if u, ok := d.(*ast.UnaryExpr); ok && u.Op == token.AND {
+				e = ast.Unparen(u.X)
+			}
+		}
+	}
 	if r.ptsLoop.Value != nil && kit.ObjOf(r.info, e) != nil && kit.ObjOf(r.info, e) == kit.ObjOf(r.info, r.ptsLoop.Value) {
 		return false, true
 	}
@@ -85,6 +105,9 @@ func (r *c15Repl) isPtText(e ast.Expr) bool {
 
 // canon names the old identifier an expression denotes under state s.
 func (r *c15Repl) canon(e ast.Expr, s kit.S) string {
+	if r.st != nil {
+		e = r.st.Resolve(e)
+	}
 	if c15Field(r.info, e, "ID", r.isN) {
 		if s.Get("s1") == "1" {
 			return "newid"
@@ -172,6 +195,22 @@ func (r *c15Repl) judgeSink(msgs *c15Msgs, what string, K string, rhs ast.Expr, 
 	src, vid := "", ""
 	if r.isFresh(rhs) {
 		src = "fresh"
+	} else if call, ok := ast.Unparen(rhs).(*ast.CallExpr); ok && r.helpers[r.f.CalleeFunc(call)] {
+		// the helper was evaluated inline; its return statement left the origin of the value
+		src = s.Get("lastret")
+		switch {
+		case strings.HasPrefix(src, "hit:"):
+			if K2 := strings.TrimPrefix(src, "hit:"); K2 != K {
+				msgs.viol("%s: the value written to %s was looked up under %s, not under the old value of %s", f.Str(at), what, c15KeyName(K2), what)
+			}
+			return s
+		case src == "missval":
+			msgs.viol("%s: on a failed lookup the empty string is written to %s", f.Str(at), what)
+			return s
+		case strings.HasPrefix(src, "look?:"):
+			msgs.viol("%s: the result of the map lookup is written to %s without testing whether the old id was found", f.Str(at), what)
+			return s
+		}
 	} else if o := kit.ObjOf(r.info, rhs); o != nil {
 		vid = kit.VarID(o)
 		src = s.Get("src:" + vid)
@@ -263,6 +302,17 @@ func c15R3(c *kit.Ctx, a *c15Anchors, r3 *kit.Rule) {
 		}
 		return true
 	})
+	r.helpers = map[*kit.Func]bool{}
+	for _, h := range a.replHelpers {
+		r.helpers[h] = true
+		c.Analysed(h)
+		ast.Inspect(h.Body, func(n ast.Node) bool {
+			if x, ok := n.(*ast.IndexExpr); ok && c15IsStrMap(info.TypeOf(x.X)) && r.M == nil {
+				r.M = kit.ObjOf(info, x.X)
+			}
+			return true
+		})
+	}
 	if r.M == nil {
 		c.Fatalf("replacer %s: map variable not found", f.Name)
 	}
@@ -277,7 +327,33 @@ func c15R3(c *kit.Ctx, a *c15Anchors, r3 *kit.Rule) {
 				isParam = true
 			}
 		}
+		mv, _ := r.M.(*types.Var)
 		switch {
+		case mv != nil && mv.IsField():
+			// a field of the receiver: one map when every recursive call goes through
+			// the same receiver and nothing assigns the field on the way
+			recv := c16RecvVar(f)
+			for _, call := range f.AllCalls(false) {
+				if f.CalleeFunc(call) != f {
+					continue
+				}
+				sel, ok := ast.Unparen(call.Fun).(*ast.SelectorExpr)
+				if !ok || recv == nil || kit.ObjOf(info, sel.X) != recv {
+					r.mapMsgs.undec("%s: the recursion does not visibly go through the same receiver (which holds the map %s)", f.Str(call), r.M.Name())
+				}
+			}
+			for _, g := range append([]*kit.Func{f}, a.replHelpers...) {
+				ast.Inspect(g.Body, func(x ast.Node) bool {
+					if as, ok := x.(*ast.AssignStmt); ok {
+						for _, l := range as.Lhs {
+							if kit.ObjOf(info, l) == r.M {
+								r.mapMsgs.viol("%s replaces the map while ids are being translated", g.Str(as))
+							}
+						}
+					}
+					return true
+				})
+			}
 		case isParam:
 			r.mapMsgs.undec("the map is a parameter of %s: whether every call receives the same map is not followed", f.Name)
 		case inside:
@@ -310,6 +386,8 @@ func c15R3(c *kit.Ctx, a *c15Anchors, r3 *kit.Rule) {
 
 	// ---- the flow
 	st := &kit.Std{F: f}
+	r.st = st
+	st.ShouldInline = func(cf *kit.Func, call *ast.CallExpr) bool { return r.helpers[cf] }
 	st.Eval.Atom = func(e ast.Expr) (string, bool, bool) {
 		// bool variable
 		if id, ok := ast.Unparen(e).(*ast.Ident); ok {
@@ -440,6 +518,36 @@ func c15R3(c *kit.Ctx, a *c15Anchors, r3 *kit.Rule) {
 
 	st.OnNode = func(n ast.Node, s kit.S) []kit.S {
 		switch y := n.(type) {
+		case *ast.ReturnStmt:
+			// the origin of the value an inlined helper hands back
+			if st.Cur() != f && len(y.Results) == 1 {
+				eff := ""
+				switch {
+				case r.isFresh(y.Results[0]):
+					eff = "fresh"
+				default:
+					if o := kit.ObjOf(info, y.Results[0]); o != nil {
+						id := kit.VarID(o)
+						src := s.Get("src:" + id)
+						switch {
+						case strings.HasPrefix(src, "look:"):
+							K := strings.TrimPrefix(src, "look:")
+							switch r.lookupOutcome(s, id, K) {
+							case "hit":
+								eff = "hit:" + K
+							case "miss":
+								eff = "missval"
+							default:
+								eff = "look?:" + K
+							}
+						default:
+							eff = src
+						}
+					}
+				}
+				return []kit.S{s.Set("lastret", eff)}
+			}
+			return []kit.S{s}
 		case *ast.ValueSpec:
 			for _, nm := range y.Names {
 				s = r.forget(s, info.Defs[nm])
@@ -643,40 +751,55 @@ func c15R3(c *kit.Ctx, a *c15Anchors, r3 *kit.Rule) {
 	}
 	r.treeMsgs.settle(oTree, "Parent = handed-down parent; recursion on &Children[i] with the new id")
 
-	// ---- entry call from the enclosing function
-	outer := f.Outer
-	oEntry := r3.Ob(f, f.Node(), "entry call", "the replacement is started on the tree and the parent given to the enclosing function")
-	if outer == nil {
-		oEntry.Undecided("%s has no enclosing function", f.Name)
-		return
-	}
-	c.Analysed(outer)
-	var m c15Msgs
-	n := 0
-	for _, call := range outer.AllCalls(false) {
-		if outer.CalleeFunc(call) != f || len(call.Args) != 2 {
-			continue
-		}
-		n++
-		var np, sp *types.Var
-		for _, p := range outer.Params() {
-			if _, isPtr := p.Type().(*types.Pointer); isPtr && c15IsNEC(p.Type()) {
-				np = p
-			} else if b, ok := p.Type().Underlying().(*types.Basic); ok && b.Kind() == types.String {
-				sp = p
+	// ---- entry call: from the enclosing function, or (declared replacer) from its callers
+	oEntry := r3.Ob(f, f.Node(), "entry call", "the replacement is started on the tree and the parent given to the entry function")
+	var callers []*kit.Func
+	if f.Outer != nil {
+		callers = []*kit.Func{f.Outer}
+	} else {
+		for _, g := range c.P.Funcs("client") {
+			if g == f || g.Body == nil || g.Lit != nil {
+				continue
+			}
+			for _, call := range g.AllCalls(false) {
+				if g.CalleeFunc(call) == f {
+					callers = append(callers, g)
+					break
+				}
 			}
 		}
-		if np == nil || kit.ObjOf(info, call.Args[0]) != np {
-			m.undec("%s: first argument is not the tree parameter", outer.Str(call))
-		}
-		if sp == nil || kit.ObjOf(info, call.Args[1]) != sp {
-			m.undec("%s: second argument is not the parent parameter", outer.Str(call))
+	}
+	var m c15Msgs
+	n := 0
+	names := ""
+	for _, outer := range callers {
+		c.Analysed(outer)
+		names += outer.Name + " "
+		for _, call := range outer.AllCalls(false) {
+			if outer.CalleeFunc(call) != f || len(call.Args) != 2 {
+				continue
+			}
+			n++
+			var np, sp *types.Var
+			for _, p := range outer.Params() {
+				if _, isPtr := p.Type().(*types.Pointer); isPtr && c15IsNEC(p.Type()) {
+					np = p
+				} else if b, ok := p.Type().Underlying().(*types.Basic); ok && b.Kind() == types.String {
+					sp = p
+				}
+			}
+			if np == nil || kit.ObjOf(info, call.Args[0]) != np {
+				m.undec("%s: first argument is not the tree parameter", outer.Str(call))
+			}
+			if sp == nil || kit.ObjOf(info, call.Args[1]) != sp {
+				m.undec("%s: second argument is not the parent parameter", outer.Str(call))
+			}
 		}
 	}
 	if n != 1 {
-		m.undec("%d entry calls of %s in %s", n, f.Name, outer.Name)
+		m.undec("%d entry calls of %s (in %s)", n, f.Name, strings.TrimSpace(names))
 	}
-	m.settle(oEntry, "%s starts the recursion on its own parameters", outer.Name)
+	m.settle(oEntry, "%s starts the recursion on its own parameters", strings.TrimSpace(names))
 }
 
 func c15WritesPointText(f *kit.Func, r *c15Repl) bool {
